@@ -12,7 +12,6 @@ import os
 import pickle
 import shutil
 import subprocess
-import sys
 import tempfile
 import time
 from pathlib import Path
@@ -260,7 +259,7 @@ def _run(ctx):
     configs = ctx.pick(["debug-ro-cache", "cf-2"], list(T.P29_CONFIGS))
     dom = ctx.domain(
         "jobs-in-a-fresh-interpreter",
-        bound=f"{len(tasks)} tasks ({', '.join(tasks)}) x configurations {configs}; {'one fresh interpreter per case' if ctx.thorough else 'one fresh interpreter per (configuration, task kind python/shell/workflow)'}, PYTHONHASHSEED = 1 + (seed + case index) mod 1000",
+        bound=f"{len(tasks)} tasks ({', '.join(tasks)}) x configurations {configs}{'' if ctx.thorough else ' (quick: wf-nested, wf-file, py-stats, py-file-in only under the debug worker)'}; {'one fresh interpreter per case' if ctx.thorough else 'one fresh interpreter per (configuration, task kind python/shell/workflow)'}, PYTHONHASHSEED = 1 + (seed + case index) mod 1000",
         rule="one real cloudpickle dump here + load_job/load_and_run there per case; non-trivial = always (another process is involved)",
         exhaustive=True,
     )
@@ -273,6 +272,8 @@ def _run(ctx):
         for cname in configs:
             group = {}
             for tname in tasks:
+                if not ctx.thorough and cname.startswith("cf") and tname in ("wf-nested", "wf-file", "py-stats", "py-file-in"):
+                    continue  # quick: the pool-based worker gets the two basic workflows and the distinctive python tasks only
                 tmp = base / f"case{i}"
                 tmp.mkdir()
                 item, parent = prepare_job_case(tname, cname, tmp)
